@@ -32,11 +32,26 @@ TimedTaskScheduler::~TimedTaskScheduler() {
 
 void TimedTaskScheduler::kickOffTask(std::shared_ptr<detail::TimedTaskImpl> next, double curTime) {
   size_t remaining = next->timesToRun.fetch_sub(1, std::memory_order_acq_rel);
+  if (remaining == 0) {
+    return;
+  }
+  // Announce the call before touching func, and only then look at the cancelled flag: ~TimedTask sets
+  // the flag first and then waits for inProgress to drop to zero before it destroys func, so either it
+  // sees this announcement and waits, or we see its flag and stay away from func (a store-buffer
+  // handshake, hence seq_cst on both sides).  Checking first and announcing afterwards left a window in
+  // which the destructor could destroy the closure we were about to run, or already running.
+  auto* np = next.get();
+  np->inProgress.fetch_add(1, std::memory_order_seq_cst);
+  if (np->flags.load(std::memory_order_seq_cst) & detail::kFFlagsCancelled) {
+    np->inProgress.fetch_sub(1, std::memory_order_release);
+    return;
+  }
   if (remaining == 1) {
-    auto* np = next.get();
     np->func(std::move(next));
-  } else if (remaining > 1) {
+    np->inProgress.fetch_sub(1, std::memory_order_release);
+  } else {
     next->func(next);
+    np->inProgress.fetch_sub(1, std::memory_order_release);
 
     if (next->steady) {
       next->nextAbsTime += next->period;
